@@ -101,6 +101,19 @@ Theorem C03_range_faces_first : forall (V : Type) (vlt : V -> V -> bool) (sort :
 Proof. exact range_faces_first. Qed.
 Print Assumptions C03_range_faces_first.
 
+(* NOT true of the code as it stands: "after initialize_filtration(ignore_infinite_values = true) the range lists exactly the
+   simplices whose value is not +infinity".  filtration_vect_ being empty means "not computed", so when every simplex is ignored
+   the next filtration_simplex_range() recomputes the cache without ignoring anything. *)
+Definition C03_range_lists_only_non_ignored_full : Prop :=
+  forall (V : Type) (vlt : V -> V -> bool) (vinf : V) (K : cplx V), NoDup (map fst K) ->
+  Permutation (map fst (snd (filtration_simplex_range vlt vinf (op_initialize_filtration vlt vinf true (K, [])))))
+              (map fst (kept V vlt vinf true K)).
+Theorem C03_all_ignored_range_refuted : exists (K : cplx Z), K <> [] /\ (forall p, In p K -> snd p = 1000%Z) /\
+  snd (op_initialize_filtration Z.ltb 1000%Z true (K, [])) = [] /\
+  snd (filtration_simplex_range Z.ltb 1000%Z (op_initialize_filtration Z.ltb 1000%Z true (K, []))) = [([0%Z], Some 1000%Z)].
+Proof. exact all_ignored_range_refuted. Qed.
+Print Assumptions C03_all_ignored_range_refuted.
+
 (* the cache: after clear_filtration the next filtration_simplex_range is recomputed from the current complex; the mutators
    drop the cache whenever they report a change; when make_filtration_non_decreasing reports no change the complex is
    literally unchanged (so the kept cache is still the right answer) *)
@@ -228,6 +241,23 @@ Theorem C03_extended_simplices : forall vmin (K : qcplx), wf K -> closed K ->
             exists s, In s (map fst K) /\ (k = s \/ k = s ++ [ext_cone_point vmin K]).
 Proof. exact (extended_keys mfnd_spec). Qed.
 Print Assumptions C03_extended_simplices.
+
+(* the cone point is a legal fresh vertex: above every vertex of K and not the reserved null_vertex() *)
+Theorem C03_cone_point_above_vertices : forall vmin (K : qcplx) x v, lookup K [x] = Some v -> (x < ext_cone_point vmin K)%Z.
+Proof. exact cone_point_gt_vertex. Qed.
+Print Assumptions C03_cone_point_above_vertices.
+
+Theorem C03_cone_point_not_null_vertex : forall vmin (K : qcplx), ext_cone_point vmin K <> null_vertex.
+Proof. exact cone_point_not_null. Qed.
+Print Assumptions C03_cone_point_not_null_vertex.
+
+(* the code as it stood before the repair in /repo (cone point = largest vertex + 1 unconditionally) is refuted:
+   with the single vertex -2 the cone point is null_vertex() = -1 *)
+Theorem C03_cone_point_unrepaired_refuted : exists (K : qcplx) (vmin : Z), wf K /\ closed K /\
+  cone_point_unrepaired (ext_maxvert vmin (vertex_values K)) = null_vertex /\
+  In [null_vertex] (map fst (fst (extend_filtration_unrepaired vmin K))).
+Proof. exact cone_point_unrepaired_refuted. Qed.
+Print Assumptions C03_cone_point_unrepaired_refuted.
 
 (* decode o encode = id on [minval, maxval], with the part (0 = UP, 1 = DOWN, 2 = EXTRA), the degenerate case maxval = minval included *)
 Theorem C03_decode_encode_up : forall mn mx v : Q, mn <= v -> v <= mx ->
